@@ -45,13 +45,6 @@ type bufRun struct {
 	settleMs  int
 }
 
-func boolInt(b bool) int {
-	if b {
-		return 1
-	}
-	return 0
-}
-
 func valsOut(kind int, l []interface{}) []int {
 	r := []int{kind, len(l)}
 	for _, v := range l {
